@@ -142,10 +142,17 @@ type EDParam struct {
 }
 
 type EResDecl struct {
-	Fields  []EParam
-	Inner   int // -1 none
-	Destroy []EDParam
-	HasEv   bool
+	Fields   []EParam
+	Inner    int // -1 none
+	Destroy  []EDParam
+	HasEv    bool
+	Conforms []int
+}
+
+type EIface struct {
+	Conforms []int
+	Destroy  []EDParam
+	HasEv    bool
 }
 
 type ERExp struct {
@@ -171,6 +178,7 @@ type EFun struct{ Pre, Body, Post []*EEmit }
 
 type EProgram struct {
 	Events []EEventDecl
+	Ifaces []EIface
 	Res    []EResDecl
 	Funs   []EFun
 	Main   []EStmt
@@ -213,38 +221,47 @@ func (r *ERExp) SX() string {
 	return fmt.Sprintf("(new %d (%s) %s)", r.Ty, strings.Join(parts, " "), in)
 }
 
+func destroySX(has bool, ds []EDParam) string {
+	if !has {
+		return "(nodestroy)"
+	}
+	var b strings.Builder
+	b.WriteString("(destroy")
+	for _, d := range ds {
+		var de string
+		switch d.K {
+		case "lit":
+			de = "(lit " + d.V.SX() + ")"
+		case "field":
+			de = fmt.Sprintf("(field %d)", d.F)
+		default:
+			de = fmt.Sprintf("(innerField %d)", d.F)
+		}
+		b.WriteString(" (dp " + d.Name + " " + d.Ty.SX() + " " + de + ")")
+	}
+	b.WriteString(")")
+	return b.String()
+}
+
 func (p *EProgram) SX() string {
 	var b strings.Builder
 	b.WriteString("(evprog (events")
 	for _, e := range p.Events {
 		b.WriteString(" " + paramsSX("event "+e.ID, e.Params))
 	}
+	b.WriteString(") (ifaces")
+	for _, it := range p.Ifaces {
+		b.WriteString(" (iface " + intsSX("conforms", it.Conforms) + " " + destroySX(it.HasEv, it.Destroy) + ")")
+	}
 	b.WriteString(") (resources")
 	for _, r := range p.Res {
-		b.WriteString(" (res " + paramsSX("fields", r.Fields))
+		b.WriteString(" (res " + paramsSX("fields", r.Fields) + " " + intsSX("conforms", r.Conforms))
 		if r.Inner >= 0 {
 			b.WriteString(fmt.Sprintf(" (inner %d)", r.Inner))
 		} else {
 			b.WriteString(" (noinner)")
 		}
-		if r.HasEv {
-			b.WriteString(" (destroy")
-			for _, d := range r.Destroy {
-				var de string
-				switch d.K {
-				case "lit":
-					de = "(lit " + d.V.SX() + ")"
-				case "field":
-					de = fmt.Sprintf("(field %d)", d.F)
-				default:
-					de = fmt.Sprintf("(innerField %d)", d.F)
-				}
-				b.WriteString(" (dp " + d.Name + " " + d.Ty.SX() + " " + de + ")")
-			}
-			b.WriteString("))")
-		} else {
-			b.WriteString(" (nodestroy))")
-		}
+		b.WriteString(" " + destroySX(r.HasEv, r.Destroy) + ")")
 	}
 	b.WriteString(") (funs")
 	for _, f := range p.Funs {
@@ -306,8 +323,23 @@ func (p *EProgram) Src() string {
 	b.WriteString("access(all) fun trI(_ id: Int, _ v: Int): Int { log(id); return v }\n")
 	b.WriteString("access(all) fun trS(_ id: Int, _ v: String): String { log(id); return v }\n")
 	b.WriteString("access(all) fun trB(_ id: Int, _ v: Bool): Bool { log(id); return v }\n")
+	for i, it := range p.Ifaces {
+		b.WriteString(fmt.Sprintf("access(all) resource interface I%d%s {\n  access(all) var f0: Int\n", i, confSrc(it.Conforms)))
+		if it.HasEv {
+			parts := make([]string, len(it.Destroy))
+			for j, d := range it.Destroy {
+				de := "self.f0"
+				if d.K == "lit" {
+					de = d.V.Src()
+				}
+				parts[j] = d.Name + ": " + d.Ty.Src() + " = " + de
+			}
+			b.WriteString("  access(all) event ResourceDestroyed(" + strings.Join(parts, ", ") + ")\n")
+		}
+		b.WriteString("}\n")
+	}
 	for i, r := range p.Res {
-		b.WriteString(fmt.Sprintf("access(all) resource R%d {\n", i))
+		b.WriteString(fmt.Sprintf("access(all) resource R%d%s {\n", i, confSrc(r.Conforms)))
 		for _, f := range r.Fields {
 			b.WriteString("  access(all) var " + f.Name + ": " + f.Ty.Src() + "\n")
 		}
@@ -547,12 +579,61 @@ func GenEvents(r *hx.Rng) *EProgram {
 		}
 		p.Events = append(p.Events, e)
 	}
+	nIf := 0
+	if r.Chance(55) {
+		nIf = 1 + r.Intn(4)
+	}
+	for i := 0; i < nIf; i++ {
+		it := EIface{}
+		for j := 0; j < i; j++ {
+			if r.Chance(45) {
+				it.Conforms = append(it.Conforms, j)
+			}
+		}
+		if len(it.Conforms) > 1 && r.Bool() {
+			it.Conforms[0], it.Conforms[len(it.Conforms)-1] = it.Conforms[len(it.Conforms)-1], it.Conforms[0]
+		}
+		if r.Chance(75) {
+			it.HasEv = true
+			n := r.Intn(3)
+			for j := 0; j < n; j++ {
+				dp := EDParam{Name: []string{"p", "q", "r"}[j]}
+				if r.Chance(60) {
+					dp.K, dp.F, dp.Ty = "field", 0, &ETy{K: "Int"}
+				} else {
+					dp.K = "lit"
+					dp.Ty = &ETy{K: []string{"Int", "String", "Bool", "UInt8"}[r.Intn(4)]}
+					dp.V = g.val(dp.Ty)
+				}
+				if r.Chance(25) {
+					dp.Ty = &ETy{K: "opt", Elem: dp.Ty}
+				}
+				it.Destroy = append(it.Destroy, dp)
+			}
+			p.Forms["iface-destroy-event"] = true
+		}
+		p.Ifaces = append(p.Ifaces, it)
+	}
 	nRes := r.Intn(4)
 	for i := 0; i < nRes; i++ {
 		d := EResDecl{Inner: -1}
 		nf := 1 + r.Intn(3)
 		for j := 0; j < nf; j++ {
 			d.Fields = append(d.Fields, EParam{Name: fmt.Sprintf("f%d", j), Ty: g.ty(1, true)})
+		}
+		if nIf > 0 && r.Chance(70) {
+			for j := 0; j < nIf; j++ {
+				if r.Chance(50) {
+					d.Conforms = append(d.Conforms, j)
+				}
+			}
+			if len(d.Conforms) > 1 && r.Bool() {
+				d.Conforms[0], d.Conforms[len(d.Conforms)-1] = d.Conforms[len(d.Conforms)-1], d.Conforms[0]
+			}
+			if len(d.Conforms) > 0 {
+				d.Fields[0].Ty = &ETy{K: "Int"} // the interfaces declare `var f0: Int`
+				p.Forms["conforms"] = true
+			}
 		}
 		if i > 0 && r.Chance(60) {
 			d.Inner = r.Intn(i)
